@@ -458,13 +458,51 @@ pub fn c12(a: &Args) {
         let mut run = |t: &str, by: usize| -> Result<Vec<String>, String> {
             catch(|| lg.lint(&make_doc(t, "plain")).into_iter().map(|mut l| { l.span.start += by; l.span.end += by; lint_digest(&l) }).collect())
         };
-        match (run(p, 0), run(d, shift), run(&pd, 0)) {
+        let pair = match (run(p, 0), run(d, shift), run(&pd, 0)) {
             (Ok(lp), Ok(ld), Ok(lpd)) => json!({"ev": "Pair", "p": p, "d": d, "lenP": shift, "lp": lp, "ld": ld, "lpd": lpd}),
             _ => json!({"ev": "PairPanic", "p": p, "d": d}),
-        }
+        };
+        // how the joined document is cut into chunks / sentences / paragraphs (every 4th pair)
+        let seg = if i % 4 == 0 { catch(|| seg_event(&make_doc(&pd, "plain"), &pd)).ok() } else { None };
+        (pair, seg)
     });
-    for e in evs { out.emit(&e); }
+    for (e, s) in evs { out.emit(&e); if let Some(s) = s { out.emit(&s); } }
+    // the cuts for Markdown documents and for the targeted kind strings
+    for i in 0..(a.num("pairs", 1000) as usize / 40) {
+        let t = if i % 2 == 0 { let prose = rng.pick(&corpus[..]).clone(); crate::inputs::markdown_doc(&prose, &mut rng) } else { crate::inputs::compose(&corpus, &mut rng) };
+        if let Ok(e) = catch(|| seg_event(&make_doc(&t, "md"), &t)) { out.emit(&e); }
+    }
+    for t in ["", " ", ".", "a", "a.", "a. b", "a.\n\nb", "a\n\nb\n\nc", "a, b: c; d. e! f? g", "\n\n", "a\n\n", "\n\na", "a.\n\n\n\nb.", "\"a,\" b.", "a\n\nb.\n\nc d\n\n"] {
+        if let Ok(e) = catch(|| seg_event(&make_doc(t, "plain"), t)) { out.emit(&e); }
+    }
     println!("{}", json!({"events": out.finish()}));
+}
+
+/// Kind letters of SegmentsOps.tla and the slices the three iterators return (1-based, inclusive).
+fn seg_event(doc: &Document, text: &str) -> Value {
+    use harper_core::{Punctuation, TokenKind, TokenStringExt};
+    let toks = doc.get_tokens();
+    let kinds: Vec<&str> = toks.iter().map(|t| match &t.kind {
+        TokenKind::Word(_) => "W",
+        TokenKind::Space(_) => "S",
+        TokenKind::Newline(_) => "N",
+        TokenKind::ParagraphBreak => "G",
+        TokenKind::Punctuation(Punctuation::Comma) => "C",
+        TokenKind::Punctuation(Punctuation::Quote(_)) => "Q",
+        TokenKind::Punctuation(Punctuation::Colon) => "K",
+        TokenKind::Punctuation(Punctuation::Period) => "P",
+        TokenKind::Punctuation(Punctuation::Bang) => "B",
+        TokenKind::Punctuation(Punctuation::Question) => "U",
+        _ => "O",
+    }).collect();
+    let base = toks.as_ptr() as usize;
+    let sz = std::mem::size_of::<harper_core::Token>();
+    let slices = |it: Vec<&[harper_core::Token]>| -> Vec<Value> {
+        it.iter().map(|s| { let from = (s.as_ptr() as usize - base) / sz; json!([from + 1, from + s.len()]) }).collect()
+    };
+    json!({"ev": "Seg", "text": text, "kinds": kinds,
+        "chunks": slices(toks.iter_chunks().collect()), "sentences": slices(toks.iter_sentences().collect()),
+        "paragraphs": slices(toks.iter_paragraphs().collect())})
 }
 
 // ------------------------------------------------------------------ C14
